@@ -176,6 +176,12 @@ func compatible(a, b labelledPath) bool {
 func checkC13(p *Prog, r *Report) {
 	r.rule("C13.type-lookup: Schema.GetType / HasType find a type by one exact equality test between a type's Name and the requested name and call nothing else (the comparison AddType uses to keep names unique)")
 	checkTypeLookup(p, r, "C13")
+	r.rule("C13.err-stops (R4.err-stops, shared with C06): in both functions the error case of every decoder call (json.Unmarshal, UnmarshalToType) cannot reach a successful return (the same slip made in both functions - an error examined only to skip a statement - leaves accept-agreement satisfied)")
+	for _, name := range []string{"UnmarshalResource", "UnmarshalPartialResource"} {
+		if ef := p.Fn(name); ef != nil {
+			checkErrStops(p, r, ef, "C13.err-stops")
+		}
+	}
 	r.rule("C13.accept-agreement (labelled path comparison): every complete path of UnmarshalPartialResource and of UnmarshalResource is explored with loops unrolled once and each non-folding branch named by the question it asks (skeleton decode error, type missing, attribute known, attribute decode error, relationship known, relationship has data, to-one, linkage decode error); two paths, one of each function, whose answers do not contradict each other must end the same way (success, or an error built by the same constructor)")
 	r.rule("C13.same-values: on non-contradicting successful paths the two functions perform the same Set calls (same field name term, same value term) and no additional call reorders or rewrites a value (e.g. a sort) in only one of them")
 	r.rule("C13.presence: in the partial function AddAttr is called only with the schema type's own attribute found for the payload key, AddRel only with the schema type's own relationship and only on paths that answered 'relationship has data' with yes for that relationship; the new type gets its name from the schema type and nothing else from it")
